@@ -523,14 +523,14 @@ func r06_4(r *Report, p *Program) {
 
 		// key agreement
 		var getKey, mkKey *ssa.Call
-		for _, b := range get.Blocks {
+		for _, b := range engine.BlocksInl(get) {
 			for _, in := range b.Instrs {
 				if lk, ok := in.(*ssa.Lookup); ok && lk.X == get.Params[0] {
 					getKey = callOf(lk.Index)
 				}
 			}
 		}
-		for _, b := range mk.Blocks {
+		for _, b := range engine.BlocksInl(mk) {
 			for _, in := range b.Instrs {
 				if mu, ok := in.(*ssa.MapUpdate); ok {
 					mkKey = callOf(mu.Key)
